@@ -289,4 +289,25 @@ CHECKS = {
         "assumptions": ["selectors always carry at least one matchLabels key (for expression-only selectors the helper removes nothing; see DESIGN O1)",
                         "the caller re-reads the built-in set before each retry, as the helper's documentation demands"] + COMMON_ASSUMPTIONS,
     },
+    "C18": {
+        "level": "exploration",
+        "rule": "two generators. (a) encoder differential: pod templates generated reflectively over the whole PodTemplateSpec schema, int64 fields over the "
+                "full range incl. values around and above 2^53; oracle: the revision data the Advanced controller computes for the converted set is "
+                "byte-identical to a reference re-implementation of the built-in controller's encoder (client-go scheme codec for apps/v1). "
+                "(b) migration: a built-in world (set with defaulted fields, 1-4 revisions encoded and named as upstream does - fnv hash of the data "
+                "- pods at generated revisions, status current/update at any rollout point, both pod-management policies, partition) is migrated with "
+                "the real helper.Upgrade, then a generated schedule of reconciles, garbage-collector orphaning (all at once or object by object, "
+                "before or between reconciles), kubelet progress and a controller crash right after a write, then a fair closing. Oracle: no reconcile "
+                "creates a ControllerRevision, status.updateRevision stays the built-in update revision, no pod running the update revision is deleted "
+                "and none at all when all were up to date, every marked revision ends label-synced and controlled by the Advanced set. Non-trivial = "
+                "(a) template with >= 6 populated fields, (b) history of >= 2 revisions or migration mid-rollout; distinct by data bytes / case",
+        "legs": [
+            {"test": "TestC18Enc", "quick": {"checks": 640, "shards": 8}, "thorough": {"checks": 96000, "shards": 16}},
+            {"test": "TestC18", "quick": {"checks": 2000}, "thorough": {"checks": 320000, "shards": 16}},
+        ],
+        "floors": {"migration-mid-rollout": 0.02, "template-with->=6-populated-fields": 0.02, "int64-above-2^53": 0.02},
+        "timeout": {"quick": 1500, "thorough": 14400},
+        "assumptions": ["the reference encoder is upstream's getPatch rebuilt on client-go's scheme (not linked from kubernetes itself, which is not vendored)",
+                        "garbage collection is modelled as removing the owner references to the deleted built-in object"] + COMMON_ASSUMPTIONS,
+    },
 }
